@@ -276,12 +276,13 @@ func TestC20_SignerFaults(t *testing.T) {
 
 type c20VCase struct {
 	Entry string `json:"entry"`
-	Modes []int  `json:"modes"` // 0 nil, 1 ErrVerification, 2 other error
+	Modes []int  `json:"modes"` // 0 nil, 1 ErrVerification, 2 other error, 3 ErrVerification on the first call and nil on any later call, 4 other error first then nil
 }
 
 var errOtherVerify = errors.New("injected verifier outage")
 
 func checkC20V(c c20VCase) error {
+	var spiesV []*bridge.SpyVerifier
 	mk := func(m int) *bridge.SpyVerifier {
 		v := &bridge.SpyVerifier{Alg: cose.AlgorithmEdDSA}
 		switch m {
@@ -289,10 +290,17 @@ func checkC20V(c c20VCase) error {
 			v.Result = cose.ErrVerification
 		case 2:
 			v.Result = errOtherVerify
+		case 3:
+			v.Results = []error{cose.ErrVerification, nil}
+		case 4:
+			v.Results = []error{errOtherVerify, nil}
 		}
+		spiesV = append(spiesV, v)
 		return v
 	}
-	want := func(m int) error { return [...]error{nil, cose.ErrVerification, errOtherVerify}[m] }
+	want := func(m int) error {
+		return [...]error{nil, cose.ErrVerification, errOtherVerify, cose.ErrVerification, errOtherVerify}[m]
+	}
 	payload := []byte("payload")
 	parent := &cose.Sign1Message{Headers: c20Headers(), Payload: payload, Signature: []byte{1, 2, 3}}
 	var err error
@@ -342,6 +350,11 @@ func checkC20V(c c20VCase) error {
 	default:
 		return fmt.Errorf("harness: unknown entry %q", c.Entry)
 	}
+	for i, sv := range spiesV {
+		if sv.NCalls() > 1 {
+			return finding("verifier-retried", "%s: verifier %d was called %d times for one verification (a rejected signature must not be re-tried in another form)", desc, i, sv.NCalls())
+		}
+	}
 	if wantErr == nil {
 		if err != nil {
 			return finding("verify-failed", "%s: all verifiers accept but Verify returns %v", desc, err)
@@ -373,21 +386,21 @@ func TestC20_VerifierOutcomes(t *testing.T) {
 		}
 	}
 	for _, e := range []string{"Sign1Message.Verify", "UntaggedSign1Message.Verify", "Signature.Verify", "Countersignature.Verify", "VerifyCountersign0", "VerifyHashEnvelope"} {
-		for m := 0; m < 3; m++ {
+		for m := 0; m < 5; m++ {
 			run(c20VCase{Entry: e, Modes: []int{m}})
 		}
 	}
 	for k := 1; k <= 5; k++ {
 		total := 1
 		for i := 0; i < k; i++ {
-			total *= 3
+			total *= 5
 		}
 		for code := 0; code < total; code++ {
 			modes := make([]int, k)
 			x := code
 			for i := range modes {
-				modes[i] = x % 3
-				x /= 3
+				modes[i] = x % 5
+				x /= 5
 			}
 			run(c20VCase{Entry: "SignMessage.Verify", Modes: modes})
 		}
